@@ -309,7 +309,12 @@ class PropertyCheck:
         reviewed tree.  Never called by a registered check."""
         p = os.path.join(HERE, "baseline", "obligations.json")
         d = json.load(open(p)) if os.path.exists(p) else {}
-        d[self.pid] = sorted({norm_label(l) for l, s in labels.items() if s == "discharged"})
+        new = {norm_label(l) for l, s in labels.items() if s == "discharged"}
+        if self.tier == "quick":
+            # labels of the contracts that only the thorough tier runs are kept from the last thorough baseline
+            slow = tuple(self.spec.get("contracts_thorough", []))
+            new |= {l for l in d.get(self.pid, []) if slow and l.startswith(slow)}
+        d[self.pid] = sorted(new)
         os.makedirs(os.path.dirname(p), exist_ok=True)
         json.dump(d, open(p, "w"), indent=0, sort_keys=True)
 
